@@ -163,7 +163,7 @@ def ranges_of_locations(res, root):
 
 
 def check_program(ctx, prog, layout, picks, scratch, validate=True):
-    layout = dataclasses.replace(layout, split_every=0, join_every=0, indent=min(layout.indent, 4))
+    layout = dataclasses.replace(layout, split_every=0, join_every=0)
     r = fmodel.render(prog, layout)
     if validate:
         fws.gfortran_sample(ctx, r)
@@ -454,7 +454,7 @@ def run(ctx):
 
     def case_of(v):
         prog, layout, picks = v
-        r = fmodel.render(prog, dataclasses.replace(layout, split_every=0, join_every=0, indent=min(layout.indent, 4)))
+        r = fmodel.render(prog, dataclasses.replace(layout, split_every=0, join_every=0))
         return {"files": r.files}
 
     ctx.hyp(case_st, oracle, max_examples=ctx.n(40, 1000), case_of=case_of, collect=bool(os.environ.get("VERIF_COLLECT")))
